@@ -98,7 +98,7 @@ def dyadic(rng, k, denom=8):
 # --------------------------------------------------------------------- MDP spec
 def gen_mdp_spec(rng, *, proper, max_states=6, max_actions=3, discounts=(0.5, 0.8, 0.9, 0.95, 0.99, 1.0),
                  nonpositive=False, uniform_actions=False, kinds=KEY_KINDS, zero_entries=True,
-                 rewards=None, absorbing_reward=True, min_states=1):
+                 rewards=None, absorbing_reward=True, min_states=1, extreme=False):
     """Random table MDP.
 
     states 0..n-1 are non-absorbing, n..n+g-1 are explicit absorbing states.
@@ -113,6 +113,13 @@ def gen_mdp_spec(rng, *, proper, max_states=6, max_actions=3, discounts=(0.5, 0.
         rchoices = rewards or (0.0, -1.0, -1.0, -2.0, -0.5, -3.0)
     else:
         rchoices = rewards or (-2.0, -1.0, -1.0, 0.0, 1.0, 0.5, 2.0)
+    if extreme:
+        # a few per cent of the workloads carry rewards of magnitude 1e6 or 1e-9 (the oracles' tolerances are relative)
+        u = rng.random()
+        if u < 0.03:
+            rchoices = tuple(r * 1e6 for r in rchoices)
+        elif u < 0.05:
+            rchoices = tuple(r * 1e-9 for r in rchoices)
     level = list(range(n))
     rng.shuffle(level)
     absorbing = list(range(n, n + g))
@@ -437,6 +444,8 @@ def gen_graph_spec(rng, kinds=KEY_KINDS, max_states=8, big=False, corridor=False
         n = rng.randint(15, 60)
         nA = rng.randint(4, 6)
         costs = (0, 1, 2, 3, 4, 5, 6, 7, 8, 9)
+        if rng.random() < 0.25:
+            costs = costs + (10 ** 6, 10 ** 6 + 3)     # toll edges: a saving of 1 is then 1e-6 of the cost so far
     else:
         n = rng.randint(1, max_states)
         nA = rng.randint(1, 3)
